@@ -1,5 +1,6 @@
 #!/bin/sh
-# Re-run every stored seed against the check of its own property (and C14 for the stateful ones); writes seeded/RESULTS.txt
+# Re-run every stored seed against the check of its own property and, where that misses, against the other checks its
+# meta.json names under detected_by (stateful seeds are the business of C14); writes seeded/RESULTS.txt
 cd "$(dirname "$0")/.." || exit 2
 WT=/tmp/wt-eval-$$
 git -C /repo worktree add -q --detach "$WT" main || exit 2
@@ -8,5 +9,10 @@ for d in seeded/*/; do
   id=$(basename "$d"); pid=${id%%-*}
   r=$(tools/evalseed.sh "$pid" "$WT" "$(pwd)/$d/patch.diff" 2>&1 | grep -v whitespace | tail -1 | cut -c1-160)
   echo "$id $pid: $r" | tee -a seeded/RESULTS.txt
+  case "$r" in DETECTED*) continue;; esac
+  for other in $(python3 -c "import json,re; print(' '.join(sorted({m for s in json.load(open('$d/meta.json')).get('detected_by',[]) for m in re.findall(r'C\d\d', s)} - {'$pid'})))"); do
+    r=$(tools/evalseed.sh "$other" "$WT" "$(pwd)/$d/patch.diff" 2>&1 | grep -v whitespace | tail -1 | cut -c1-160)
+    echo "$id $other: $r" | tee -a seeded/RESULTS.txt
+  done
 done
 git -C /repo worktree remove --force "$WT"
